@@ -348,6 +348,9 @@ func rulesC12(w *World, r *Report) {
 			r.Check(okF, "C12.R4", d.name+":framing", w.pos(H.Pos()), "handler writes "+strings.Join(hSeq, ",")+"; client reads "+strings.Join(cSeq, ","), "the handler's encoding sequence ["+strings.Join(hSeq, ",")+"] differs from the client's decoding sequence ["+strings.Join(cSeq, ",")+"] (expected Header then one element per archive)")
 		}
 	}
+	r.Rule("C12.R6", "list framing: the items/files handlers write one name per line and the clients split on newlines only; every remote function passes errors on unwrapped", 11)
+	ruleLineFraming(w, r, "C12.R6")
+	ruleRemoteErrorsUnwrapped(w, r, "C12.R6")
 	// server-side helpers of the protocol
 	if s := need(w, r, "C12.R5", w.Cmd, "setRespForNotExistErr"); s != nil {
 		writes := false
